@@ -1,5 +1,6 @@
 import RxnModel.Model.KeySpace
 import RxnModel.Model.Lsm
+import RxnModel.Model.Search
 /-!
 # Rescaling: checkpoint assignment and multi-handle restore
 
@@ -138,5 +139,63 @@ def ckptAnswer (c : Ckpt) (k : Bytes) : Option Bytes :=
 
 /-- key group of a stored key: its first two bytes, big endian (`KeyGroupFromBytes(key[:2])`) -/
 def kgOf (k : Bytes) : Nat := Bytes.beNat (k.take 2)
+
+/-! ## Reads of the level list exactly as `dkv/sst/level_list.go` performs them
+
+`Lsm.levelsGet` / `Lsm.scan` describe deeper levels by "the table whose range contains the key"; on a composite
+level list the tables come from several instances, so here the binary searches are modelled as they are
+(`SearchUnique` over `RangeKeyCompare`, `slices.BinarySearchFunc` over `RangePrefixCompare` followed by the forward
+walk). On a sorted, non-overlapping level both descriptions agree (`Proofs/Rescale.lean`). -/
+
+/-- deeper level of `tablesForKey`: `SearchUnique(levelTables, key, RangeKeyCompare)`, then `Table.Get` -/
+def deepGetBS (l : List Tbl) (k : Bytes) : Option Entry :=
+  match Search.searchTables (l.map fun t => (t.startKey, t.endKey)).toArray k with
+  | some i => (l[i]?).bind (fun t => t.run.lookup k)
+  | none => none
+
+/-- `LevelList.Get` -/
+def levelsGetR (levels : List (List Tbl)) (k : Bytes) : Option Entry :=
+  match levels with
+  | [] => none
+  | l0 :: deeper =>
+    match l0Get l0 k with
+    | some e => some e
+    | none => firstSome (fun l => deepGetBS l k) deeper
+
+/-- `DB.Get` -/
+def getR (s : State) (k : Bytes) : Option Entry :=
+  match memGet s.mems k with
+  | some e => some e
+  | none => levelsGetR s.levels k
+
+/-- the loop of `slices.BinarySearchFunc`: first index whose compare value is not negative -/
+def lowerBound {α : Type} (xs : Array α) (c : α → Int) (low high : Nat) : Nat :=
+  if _h : low < high then
+    let i := (low + high) / 2
+    if hi : i < xs.size then
+      if c xs[i] < 0 then lowerBound xs c (i + 1) high else lowerBound xs c low i
+    else low
+  else low
+termination_by high - low
+decreasing_by all_goals omega
+
+/-- deeper level of `AllTablesForPrefix` -/
+def deepTablesForPrefix (l : List Tbl) (p : Bytes) : List Tbl :=
+  let arr := l.toArray
+  let c := fun (t : Tbl) => Gen.tblRangePrefixCompare t.startKey t.endKey p
+  let i := lowerBound arr c 0 arr.size
+  match arr[i]? with
+  | some t => if c t = 0 then (l.drop i).takeWhile (fun t => t.rangeContainsPrefix p) else []
+  | none => []
+
+/-- `AllTablesForPrefix` -/
+def tablesForPrefix (levels : List (List Tbl)) (p : Bytes) : List Tbl :=
+  match levels with
+  | [] => []
+  | l0 :: deeper => l0.filter (fun t => t.rangeContainsPrefix p) ++ deeper.flatMap (fun l => deepTablesForPrefix l p)
+
+/-- `DB.ScanPrefix` over the tables `AllTablesForPrefix` selects -/
+def scanR (s : State) (p : Bytes) : Run :=
+  (merge2 (mergeAll (s.mems.map (prefixRun p))) (mergeAll ((tablesForPrefix s.levels p).map (·.scan p)))).filter (fun e => !e.del)
 
 end Rxn.Rescale
